@@ -241,6 +241,8 @@ def process_unit(template):
                 o = origins[s["line_start"] - 1] if s["line_start"] - 1 < len(origins) else None
                 if o and o[0] == "repo" and e["real"] is None:
                     e["real"] = "%s:%d" % (o[1], o[2])
+        if e["fn"] is not None and e["real"] is None:
+            e["real"] = "%s:%d" % (e["fn"]["file"], e["fn"]["line"])
         if e["fn"] is None:
             # a template-level proof/spec fn: find the enclosing fn name textually
             ln0 = min(s["line_start"] for s in spans) if spans else 1
@@ -412,8 +414,12 @@ def report(prop, tier, seed, results, kres, t0):
         # baseline regression guard: fewer verified functions than frozen => undecided
         b = baseline.get(r["unit"])
         mine = attribute(r, prop, True)
+        seen_eids = set()
         for e in mine:
             eid = err_id(r, e, prop)
+            if eid in seen_eids:
+                continue
+            seen_eids.add(eid)
             fnname = e["fn"]["name"] if e["fn"] else e.get("lemma", "?")
             k = match_known(known, prop, r["unit"], fnname, e)
             if k:
